@@ -406,6 +406,28 @@ def memo_state(ctx):
                             ctx.fail('C15.7', m, enclosing_stmt(x), 'the lazily filled memo self.%s is consulted by %s: what earlier '
                                      'calls happened to load then decides what this call does or returns' % (attr, how),
                                      line=x.lineno, key_extra=attr)
+    # a memo belongs to one reader: it is bound in the constructor of its class to a fresh empty container and never
+    # re-bound or handed to another object - two readers (the emulator and its header accessor, say) that share one
+    # dictionary serve each other's representation of the same key (padded vs compacted arrays), whichever call came first
+    memo_names = set()
+    for cls in RF.reader_classes(P):
+        memo_names |= set(lazy_memo_attrs(P, cls))
+    for f in P.functions.values():
+        for a in ast.walk(f.node):
+            if not isinstance(a, (ast.Assign, ast.AugAssign, ast.AnnAssign)):
+                continue
+            tgts = a.targets if isinstance(a, ast.Assign) else [a.target]
+            for t in tgts:
+                if isinstance(t, ast.Attribute) and t.attr in memo_names:
+                    fresh = isinstance(a, ast.Assign) and U(a.value) in ('{}', 'dict()', 'collections.OrderedDict()', 'OrderedDict()')
+                    own = isinstance(t.value, ast.Name) and t.value.id == 'self' and f.name == '__init__'
+                    n += 1
+                    if fresh and own:
+                        continue
+                    ctx.fail('C15.7', f, a, 'the lazily filled memo `%s` is %s: readers that share a memo (or a memo that is swapped '
+                             'after construction) return what another object, or an earlier phase, cached under the same key' % (
+                                 U(t), 'bound to `%s`' % U(a.value)[:40] if isinstance(a, ast.Assign) else 'updated in place'),
+                             line=a.lineno, key_extra='rebind-' + t.attr)
     if n < 5:
         raise AnalysisError('uses of lazily filled memos: found %d, floor 5' % n)
     if not any(fd.rule == 'C15.7' for fd in ctx.findings):
